@@ -480,6 +480,7 @@ func main() {
 					Honest   bool     `json:"honest"`
 					CodeS    string   `json:"code_s"`
 					CodeR    string   `json:"code_r"`
+					Extra    string   `json:"extra"`
 				} `json:"replay"`
 			} `json:"violation"`
 		}
@@ -489,6 +490,10 @@ func main() {
 		}
 		if art.Violation.Replay.Honest {
 			checkHonest(art.Violation.Replay.CodeS, art.Violation.Replay.CodeR)
+			res.Finish()
+		}
+		if art.Violation.Replay.Extra != "" {
+			checkExtra(art.Violation.Replay.Extra)
 			res.Finish()
 		}
 		if art.Violation.Replay.Tamper != "" {
@@ -594,36 +599,41 @@ func main() {
 		if !vlib.Mine(n) {
 			continue
 		}
-		ex := ex
-		var dialed, accepted int
-		var bl *byteLog
-		x := vrt.Run(cfg(), nil, func() { dialed, accepted, bl = runExtra(ex) })
 		trans++
-		res.Eval()
 		res.Nontrivial("extra|" + ex)
-		if x.Outcome != "ok" {
-			res.Violate("hang", "c08/auth", map[string]any{"position": "extra:" + ex, "outcome": x.Outcome}, fmt.Sprintf("extra connections %s: %s %s", ex, x.Outcome, x.Detail), nil)
-			continue
-		}
-		if ex == "honest" && (dialed != 1 || accepted != 1) {
-			res.Violate("rejected", "c08/auth", map[string]any{"position": "extra:honest"}, fmt.Sprintf("honest extra connection: dialed=%d accepted=%d", dialed, accepted), nil)
-		}
-		if ex != "honest" && (dialed != 0 || accepted != 0) {
-			res.Violate("accepted", "c08/auth", map[string]any{"position": "extra:" + ex}, fmt.Sprintf("extra connection %s: dialed=%d accepted=%d connections handed to the transfer", ex, dialed, accepted), nil)
-		}
-		// no byte other than the 50-byte auth message on the auth stream before success
-		for k, d := range bl.data {
-			if !strings.HasSuffix(k, ":0") || len(d) > app.VerifAuthMsgSize {
-				if ex != "honest" {
-					res.Violate("data-before-auth", "c08/auth", map[string]any{"position": "extra:" + ex}, fmt.Sprintf("extra connection %s: %d bytes written on %s although authentication did not succeed", ex, len(d), k), nil)
-				}
-			}
-		}
+		checkExtra(ex)
 	}
 	res.States = states + 9
 	res.Trans = trans
 	res.Validated = trans
 	res.Finish()
+}
+
+// checkExtra runs the real dialExtraConns / acceptExtraConns against one kind of peer.
+func checkExtra(ex string) {
+	rp := map[string]any{"extra": ex}
+	var dialed, accepted int
+	var bl *byteLog
+	x := vrt.Run(cfg(), nil, func() { dialed, accepted, bl = runExtra(ex) })
+	res.Eval()
+	if x.Outcome != "ok" {
+		res.Violate("hang", "c08/auth", map[string]any{"position": "extra:" + ex, "outcome": x.Outcome}, fmt.Sprintf("extra connections %s: %s %s", ex, x.Outcome, x.Detail), rp)
+		return
+	}
+	if ex == "honest" && (dialed != 1 || accepted != 1) {
+		res.Violate("rejected", "c08/auth", map[string]any{"position": "extra:honest"}, fmt.Sprintf("honest extra connection: dialed=%d accepted=%d", dialed, accepted), rp)
+	}
+	if ex != "honest" && (dialed != 0 || accepted != 0) {
+		res.Violate("accepted", "c08/auth", map[string]any{"position": "extra:" + ex}, fmt.Sprintf("extra connection %s: dialed=%d accepted=%d connections handed to the transfer", ex, dialed, accepted), rp)
+	}
+	// no byte other than the 50-byte auth message on the auth stream before success
+	for k, d := range bl.data {
+		if !strings.HasSuffix(k, ":0") || len(d) > app.VerifAuthMsgSize {
+			if ex != "honest" {
+				res.Violate("data-before-auth", "c08/auth", map[string]any{"position": "extra:" + ex}, fmt.Sprintf("extra connection %s: %d bytes written on %s although authentication did not succeed", ex, len(d), k), rp)
+			}
+		}
+	}
 }
 
 func runExtra(kind string) (dialed, accepted int, bl *byteLog) {
